@@ -12,11 +12,12 @@ CONSTANTS Times,     \* set of (integer) time values that may be added
           MaxAdds, Emit
 
 VARIABLES content,   \* sequence of <<time, tag>>; the tag identifies the state that was added
-          hist       \* sequence of times in the order they were added
+          hist,      \* sequence of times in the order they were added
+          rej        \* rejected add() calls: <<number of accepted adds before it, time, kind of invalid input>>
 
-vars == <<content, hist>>
+vars == <<content, hist, rej>>
 
-Init == content = << >> /\ hist = << >>
+Init == content = << >> /\ hist = << >> /\ rej = << >>
 
 \* insertion point: after the last entry whose time is <= t   (bisect_right)
 InsertAt(seq, t) == LET S == { i \in 1..Len(seq) : seq[i][1] <= t } IN
@@ -27,8 +28,17 @@ Add(t) ==
     /\ LET k == InsertAt(content, t)  tag == Len(hist) + 1 IN
        content' = SubSeq(content, 1, k) \o << <<t, tag>> >> \o SubSeq(content, k + 1, Len(content))
     /\ hist' = Append(hist, t)
+    /\ UNCHANGED rej
 
-Next == \E t \in Times : Add(t)
+\* an add() with invalid input (a state of another shape, a field that is not a number, a wrong number of states) is
+\* rejected and leaves the container exactly as it was
+RejectKinds == {"shape", "field", "count"}
+Reject(t, k) ==
+    /\ Len(rej) < 1 /\ Len(hist) >= 1 /\ Len(hist) < MaxAdds
+    /\ rej' = Append(rej, <<Len(hist), t, k>>)
+    /\ UNCHANGED <<content, hist>>
+
+Next == \E t \in Times : (Add(t) \/ \E k \in RejectKinds : Reject(t, k))
 Spec == Init /\ [][Next]_vars
 
 Sorted == \A i \in 1..(Len(content) - 1) : content[i][1] <= content[i + 1][1]
@@ -36,6 +46,7 @@ Aligned == \A i \in 1..Len(content) : hist[content[i][2]] = content[i][1]      \
 Stable == \A i \in 1..(Len(content) - 1) : content[i][1] = content[i + 1][1] => content[i][2] < content[i + 1][2]
 Complete == Len(content) = Len(hist)
 
-CaseRecord == [ adds |-> hist, content |-> content ]
+RejectKeeps == [][rej' # rej => content' = content]_vars
+CaseRecord == [ adds |-> hist, content |-> content, rejects |-> rej ]
 EmitCase == (Emit /\ Len(hist) = MaxAdds) => PrintT("CASE " \o ToJson(CaseRecord))
 =============================================================================
